@@ -162,16 +162,33 @@ func (r *rlocker) Unlock() { (*RWMutex)(r).RUnlock() }
 func (m *RWMutex) RLocker() Locker { return (*rlocker)(m) }
 
 // WaitGroup ------------------------------------------------------------------
+//
+// Free-running mode does not use sync.WaitGroup: Go 1.25 associates a WaitGroup with the synctest
+// bubble of its first Add and only drops the association when a waiter is released; with tens of
+// thousands of bubbles per process a later object at a recycled address was occasionally reported
+// as "WaitGroup.Add called from multiple synctest bubbles" (a runtime artefact, not a property of
+// the code under test). A mutex + channel implementation has the same semantics and blocks durably.
 
 type WaitGroup struct {
-	real sync.WaitGroup
-	n    int
+	mu sync.Mutex
+	n  int
+	ch chan struct{}
 }
 
 func (w *WaitGroup) Add(d int) {
 	s := sched.Cur()
 	if s == nil {
-		w.real.Add(d)
+		w.mu.Lock()
+		w.n += d
+		neg := w.n < 0
+		if w.n == 0 && w.ch != nil {
+			close(w.ch)
+			w.ch = nil
+		}
+		w.mu.Unlock()
+		if neg {
+			panic("sync: negative WaitGroup counter")
+		}
 		return
 	}
 	s.Lock()
@@ -188,7 +205,17 @@ func (w *WaitGroup) Done() { w.Add(-1) }
 func (w *WaitGroup) Wait() {
 	s := sched.Cur()
 	if s == nil {
-		w.real.Wait()
+		w.mu.Lock()
+		if w.n == 0 {
+			w.mu.Unlock()
+			return
+		}
+		if w.ch == nil {
+			w.ch = make(chan struct{})
+		}
+		c := w.ch
+		w.mu.Unlock()
+		<-c
 		return
 	}
 	s.Point("WaitGroup.Wait", w, func() bool { return w.n == 0 }, func() {})
